@@ -452,6 +452,26 @@ def o_limits(rec, world, hist=None):
         return out
     failed = _failed_calls(ix)
     ds = ref.deps_star(world)
+    # the exception reported for an exhausted call / store operation is the one of its last attempt
+    import uberjob
+
+    if isinstance(rec.exc, uberjob.CallError):
+        who = identify_error_call(rec)
+        last = None
+        if who is not None and who[0] == "node":
+            nid = who[1]
+            if nid in failed:
+                last = rec.rt.raised.get(nid, [])
+            else:
+                st = nodes[nid].get("store")
+                last = rec.rt.store_raised.get((st, "mtime"), []) if st else None
+        elif who is not None and who[0] in ("read", "write"):
+            last = rec.rt.store_raised.get((who[1], who[0]), [])
+        if last and len(last) > 1 and rec.exc.__cause__ is not last[-1]:
+            idx = [i for i, e in enumerate(last) if e is rec.exc.__cause__]
+            out.append(V("not-last-attempt", f"{who} failed {len(last)} attempts; the reported exception is that of attempt "
+                                             f"{idx[0] + 1 if idx else '?'} ({rec.exc.__cause__!r}), not of the last one"))
+            return out
     # max_errors (no registry: all physical nodes are user calls)
     if rec.built.registry is None:
         k = cfg.get("max_errors", 0)
